@@ -179,6 +179,72 @@ pub fn scenario(idx: usize, seed: u64, reqs_per_task: usize) -> ScenarioResult {
     let problems: Arc<Mutex<Vec<String>>> = Default::default();
     let stats: Arc<[AtomicU64; 6]> = Arc::new(Default::default()); // ok, err, refused, cancelled, missing-peer, total
     let next_id = Arc::new(AtomicU64::new(1));
+    // ---- sequential endings, decided on logical steps (no clock, no scheduler): one request of
+    // one peer at a time, hand-polled with a no-op waker, ending in every way a request can end
+    // (success or inner error after 0-7 yields, dropped before the first poll, dropped while inside
+    // the wrapped service).  With nothing of that peer executing, the next request must enter the
+    // wrapped service within its first polls: a slot that was not freed by one of the endings shows
+    // here as a request that is refused or never admitted - and is reported, instead of leaving the
+    // concurrent phase below waiting for a permit that nothing can release.
+    let mut seq_requests = 0u64;
+    let seq_problem: Option<String> = rt.block_on(tokio::task::unconstrained(async {
+        use std::future::Future;
+        let waker = futures::task::noop_waker();
+        let mut cx = std::task::Context::from_waker(&waker);
+        let mut s = layer.clone().layer(Gauged(sh.clone()));
+        for p in 0..npeers.min(2) {
+            let mut history: Vec<String> = Vec::new();
+            for _ in 0..(2 * limit.min(8) + 6) {
+                let id = next_id.fetch_add(1, Ordering::SeqCst);
+                let kind = rng.gen_range(0..10);
+                let (beh, cancel_after): (String, Option<u32>) = match kind {
+                    0..=2 => (format!("ok:{}", rng.gen_range(0..8)), None),
+                    3..=4 => (format!("err:{}", rng.gen_range(0..5)), None),
+                    5 => ("ok:0".into(), Some(0)),
+                    _ => (if kind % 2 == 0 { "ok:7".to_string() } else { "never".to_string() }, Some(rng.gen_range(1..5))),
+                };
+                stats[5].fetch_add(1, Ordering::Relaxed);
+                seq_requests += 1;
+                let before = sh.invoked.load(Ordering::SeqCst);
+                let mut f = Box::pin(s.ready().await.unwrap().call(req(id, Some(p), &beh)));
+                let polls = cancel_after.unwrap_or(32);
+                let mut out = None;
+                for _ in 0..polls {
+                    if let std::task::Poll::Ready(r) = f.as_mut().poll(&mut cx) {
+                        out = Some(r);
+                        break;
+                    }
+                }
+                let entered = sh.invoked.load(Ordering::SeqCst) > before;
+                drop(f);
+                history.push(match cancel_after {
+                    Some(k) => format!("{beh} dropped after {k} polls"),
+                    None => beh.clone(),
+                });
+                let refused = matches!(&out, Some(Err(st)) if st.status() == StatusCode::TooManyRequests);
+                if refused || (polls > 0 && !entered) {
+                    return Some(format!(
+                        "peer {p} has no request executing, yet its next request is {} (limit {limit}, {}); endings so far: {}",
+                        if refused { "refused with TooManyRequests".to_string() } else { format!("not admitted within {polls} polls") },
+                        if block { "Block" } else { "ReturnError" },
+                        history.join(", ")
+                    ));
+                }
+                match (cancel_after, out) {
+                    (_, Some(Ok(_))) => { stats[0].fetch_add(1, Ordering::Relaxed); }
+                    (_, Some(Err(_))) => { stats[1].fetch_add(1, Ordering::Relaxed); }
+                    (Some(_), None) => { stats[3].fetch_add(1, Ordering::Relaxed); }
+                    (None, None) => return Some(format!("request '{beh}' of peer {p} entered the wrapped service but did not finish within {polls} polls")),
+                }
+            }
+        }
+        None
+    }));
+    if let Some(what) = seq_problem {
+        drop(rt);
+        let w = json!({"scenario": idx, "seed": seed, "limit": limit, "mode": if block {"Block"} else {"ReturnError"}, "phase": "sequential endings (hand-polled)", "problems": [what.clone()]});
+        return ScenarioResult::violated(what, w).count("sequential_ending_requests", seq_requests);
+    }
     rt.block_on(async {
         let mut hs = Vec::new();
         for t in 0..ntasks {
@@ -389,6 +455,7 @@ pub fn scenario(idx: usize, seed: u64, reqs_per_task: usize) -> ScenarioResult {
         .count("scenarios_reaching_limit", (max_reached == limit as i64) as u64)
         .count("capacity_probes", probe_ok)
         .count("fresh_peer_rounds", fresh_rounds as u64)
+        .count("sequential_ending_requests", seq_requests)
 }
 
 pub fn run(ctx: &Ctx) -> i32 {
@@ -410,12 +477,12 @@ pub fn run(ctx: &Ctx) -> i32 {
         tier,
         seed: ctx.seed,
         level: "exploration",
-        rule: "scenario = InflightLimitLayer(limit in {1,2,3,8,64}, Block|ReturnError) around a gauged service on a 4-worker tokio runtime; 4-16 tasks share clones of the layered service (and services built from clones of the layer) and issue 1.5k (thorough 20k) requests each for 1-6 peers: finish after 0-7 yields, fail, or get cancelled after 0-5 polls (before the permit, while waiting for it, inside the call); the gauge is one fetch_add in the synchronous part of the inner call() whose return value is the observation (<= limit), a guard decrements on completion/error/drop; at quiescence gauges are 0; 400 fresh-peer rounds make 8 tasks fire at one brand-new peer at the same moment (barrier) so that the creation of a peer's bookkeeping is itself raced; a probe fills every peer with exactly `limit` never-finishing requests (the next is refused / keeps waiting) which also shows per-peer isolation; distinct by (mode, limit, limit reached, refusals seen, cancellations seen) The capacity probe at the quiescent point is decided on logical steps: probe futures are polled by hand (no-op waker, unconstrained) a fixed number of times, no clock.".into(),
+        rule: "scenario = InflightLimitLayer(limit in {1,2,3,8,64}, Block|ReturnError) around a gauged service on a 4-worker tokio runtime; first a sequential, hand-polled phase (no clock): one request of one peer at a time ending in every possible way (ok/error after 0-7 yields, dropped unpolled, dropped inside the wrapped service), after each of which the next request must enter the wrapped service within its first polls and must not be refused; then 4-16 tasks share clones of the layered service (and services built from clones of the layer) and issue 1.5k (thorough 20k) requests each for 1-6 peers: finish after 0-7 yields, fail, or get cancelled after 0-5 polls (before the permit, while waiting for it, inside the call); the gauge is one fetch_add in the synchronous part of the inner call() whose return value is the observation (<= limit), a guard decrements on completion/error/drop; at quiescence gauges are 0; 400 fresh-peer rounds make 8 tasks fire at one brand-new peer at the same moment (barrier) so that the creation of a peer's bookkeeping is itself raced; a probe fills every peer with exactly `limit` never-finishing requests (the next is refused / keeps waiting) which also shows per-peer isolation; distinct by (mode, limit, limit reached, refusals seen, cancellations seen) The capacity probe at the quiescent point is decided on logical steps: probe futures are polled by hand (no-op waker, unconstrained) a fixed number of times, no clock.".into(),
         assumptions: vec!["interleavings are those a 4-worker runtime produces; the over-limit probe waits 30 ms of real time".into()],
         summary,
         extra: Default::default(),
         exhaustive: None,
         min_signatures: 8,
-        required_counters: vec!["admitted_ok", "inner_errors", "refused_too_many", "cancelled", "scenarios_reaching_limit", "capacity_probes", "fresh_peer_rounds"],
+        required_counters: vec!["admitted_ok", "inner_errors", "refused_too_many", "cancelled", "scenarios_reaching_limit", "capacity_probes", "fresh_peer_rounds", "sequential_ending_requests"],
     })
 }
